@@ -458,7 +458,7 @@ Proof.
   - cbn [map app dfbuf dcode length]. rewrite Nat.add_0_r, app_nil_r. destruct st as [fi lr fb]. cbn [lreg fid fbuf] in *. subst lr.
     destruct (cblock0 path main {| fid := fi; lreg := 0; fbuf := fb |}); reflexivity.
   - pose proof (Forall_inv HF) as (Hf & Hnd & Hsrc & Hok & Hfv & Hsm). pose proof (Forall_inv_tail HF) as HF'.
-    cbn [map app cblock0 def_stmt fst snd]. match goal with |- ?G => idtac G end. rewrite cstmt_SAssign, cexpr_EFn_eq.
+    cbn [map app cblock0]. unfold def_stmt at 1. cbn [fst snd]. rewrite cstmt_SAssign, cexpr_EFn_eq.
     rewrite (cblockT_ok path 1 body [] false (rev ps) None st Hok). rewrite Hlr. cbv zeta.
     rewrite Hfv. rewrite IH by (try exact HF'; reflexivity). cbn [fid lreg fbuf].
     replace (fid st + length ((f, (ps, body)) :: t)) with (S (fid st) + length t) by (cbn [length]; lia).
@@ -466,3 +466,413 @@ Proof.
     destruct (cblock0 path main _); reflexivity.
 Qed.
 End Module.
+
+(* ================================================================ executing the definitions *)
+Fixpoint dscope (k : nat) (FT : ftab) : scope :=
+  match FT with [] => [] | (f, _) :: t => (f, N.of_nat k) :: dscope (S k) t end.
+Fixpoint dcells (path : str) (k : nat) (FT : ftab) : list value :=
+  match FT with [] => [] | _ :: t => VFun (fn_name path k) None :: dcells path (S k) t end.
+
+Lemma dscope_app : forall P k d, dscope k (P ++ [d]) = dscope k P ++ [(fst d, N.of_nat (k + length P))].
+Proof.
+  induction P as [|[f r] t IH]; intros k [f0 r0]; cbn [app dscope length fst].
+  - now rewrite Nat.add_0_r.
+  - rewrite IH. cbn [fst]. replace (S k + length t) with (k + S (length t)) by lia. reflexivity.
+Qed.
+Lemma dcells_app : forall path P k d, dcells path k (P ++ [d]) = dcells path k P ++ [VFun (fn_name path (k + length P)) None].
+Proof.
+  intros path. induction P as [|x t IH]; intros k d; cbn [app dcells length].
+  - now rewrite Nat.add_0_r.
+  - rewrite IH. replace (S k + length t) with (k + S (length t)) by lia. reflexivity.
+Qed.
+Lemma dcells_length : forall path P k, length (dcells path k P) = length P.
+Proof. intros path. induction P as [|x t IH]; intros k; cbn [dcells length]; [reflexivity|now rewrite IH]. Qed.
+Lemma assoc_dscope_none : forall f P k, ~ In f (fnames P) -> assoc f (dscope k P) = (None : option N).
+Proof.
+  intros f. induction P as [|[f0 r] t IH]; intros k H; [reflexivity|]. cbn [dscope assoc fnames map fst In] in *.
+  rewrite str_eqb_neq by (intros ->; apply H; now left). apply IH. intros Hin. apply H. now right.
+Qed.
+Lemma assoc_dscope_nth : forall P k i d, NoDup (fnames P) -> nth_error P i = Some d ->
+  assoc (fst d) (dscope k P) = Some (N.of_nat (k + i)).
+Proof.
+  induction P as [|[f0 r] t IH]; intros k i d Hnd Hi; [destruct i; discriminate|].
+  cbn [fnames map fst] in Hnd. inversion Hnd as [|? ? Hn Hnd']; subst. destruct i as [|i].
+  - cbn in Hi. inversion Hi; subst d. cbn [dscope assoc fst]. rewrite str_eqb_refl, Nat.add_0_r. reflexivity.
+  - cbn [nth_error] in Hi. cbn [dscope assoc].
+    assert (Hne : f0 <> fst d).
+    { intros ->. apply Hn. unfold fnames. apply in_map. eapply nth_error_In. exact Hi. }
+    rewrite str_eqb_neq by exact Hne. rewrite (IH (S k) i d Hnd' Hi). f_equal. lia.
+Qed.
+
+Section Defs.
+Variable path : str.
+Variable prog : program.
+Variable name : str.
+Variable code : list instr.
+
+(* the state after the definitions P have been executed *)
+Record dinv (P : ftab) (env : fenv) (s : rstate) (a : act) (g : gstate) : Prop := {
+  di_loc : locals env = [dscope 0 P];
+  di_cap : captured env = [];
+  di_len : length (store s) = length P;
+  di_clo : forall i f ps body, nth_error P i = Some (f, (ps, body)) ->
+           nth_error (store s) i = Some (RClos ps body [dscope 0 (firstn i P)]);
+  di_rout : rout s = [];
+  di_fr : frames g = [{| lab := LFun name; vars := dscope 0 P |}];
+  di_cells : cells g = dcells path 0 P;
+  di_out : out g = [];
+  di_ops : a_ops a = [];
+  di_ip : a_ip a = 2 * length P;
+  di_cb : a_cb a = None;
+  di_ss : a_ss a = 0
+}.
+
+Lemma dec_make_function1 : forall loc, decode (mkI OP_MAKE_FUNCTION [loc]) = DOk (DMakeFunction loc []).
+Proof. reflexivity. Qed.
+
+Lemma defs_run : forall Q P env s a g main fuel,
+  NoDup (fnames (P ++ Q)) -> code_at code (2 * length P) (dcode path (length P) Q) ->
+  dinv P env s a g ->
+  exists env' s' a' g', xrun prog name code a g a' g' /\ dinv (P ++ Q) env' s' a' g' /\ act_same a a' /\
+    (exec_block fuel env (map def_stmt Q ++ main) s = SFuel \/
+     exists fuel0, exec_block fuel env (map def_stmt Q ++ main) s = exec_block fuel0 env' main s').
+Proof.
+  induction Q as [|[f [ps body]] Q IH]; intros P env s a g main fuel Hnd Hc Hinv.
+  - exists env, s, a, g. rewrite app_nil_r. split; [apply xrun_refl|]. split; [exact Hinv|]. split; [apply act_same_refl|].
+    right. exists fuel. reflexivity.
+  - cbn [dcode] in Hc. apply code_at_cons in Hc as [Hi1 Hc]. apply code_at_cons in Hc as [Hi2 Hc].
+    destruct Hinv as [Hloc Hcap Hlen Hclo Hro Hfr Hce Hou Hops Hip Hcb Hss].
+    assert (Hfn : ~ In f (fnames P)).
+    { unfold fnames in *. rewrite map_app in Hnd. cbn [map fst] in Hnd. apply NoDup_remove_2 in Hnd.
+      intros Hin. apply Hnd. apply in_or_app. now left. }
+    (* the reference semantics *)
+    set (fv := RClos ps body ([dscope 0 P] ++ [])).
+    set (env1 := {| locals := [dscope 0 P ++ [(f, N.of_nat (length (store s)))]]; captured := captured env; cur := cur env |}).
+    set (s1 := {| store := store s ++ [fv]; rout := rout s |}).
+    assert (Hex : forall fu, Eval.exec (S (S fu)) env (def_stmt (f, (ps, body))) s = SOk SigNormal env1 s1).
+    { intros fu. unfold def_stmt. cbn [fst snd]. rewrite exec_SAssign.
+      change (eval (S fu) env (EFn ps body) s) with (EVal (RClos ps body (locals env ++ captured env)) s).
+      rewrite Hloc, Hcap. unfold assign. rewrite Hloc. cbn [lookup_scopes]. rewrite (assoc_dscope_none f P 0 Hfn).
+      unfold declare, alloc. rewrite Hloc. rewrite assoc_set_absent by (apply assoc_dscope_none; exact Hfn). reflexivity. }
+    (* the machine: make_function, store *)
+    set (i1 := mkI OP_MAKE_FUNCTION [fn_name path (length P)]) in *.
+    set (a1 := set_ip (set_ops a [VFun (fn_name path (length P)) None]) (S (a_ip a))).
+    set (g1 := trc name a g i1).
+    assert (R1 : xrun prog name code a g a1 g1).
+    { eapply (xstep_next prog name code a g i1 _ (a_ip a) (set_ops a [VFun (fn_name path (length P)) None]));
+        [reflexivity|rewrite Hip; exact Hi1|apply dec_make_function1|]. cbn [exec_d]. now rewrite Hops. }
+    set (i2 := mkI OP_STORE [f]) in *.
+    set (g1t := trc name a1 g1 i2).
+    set (g2 := {| cells := cells g ++ [VFun (fn_name path (length P)) None];
+                  frames := [{| lab := LFun name; vars := dscope 0 P ++ [(f, N.of_nat (length (cells g)))] |}];
+                  out := out g; trace := trace g1t |}).
+    set (a2 := set_ip (set_ops a1 []) (S (a_ip a1))).
+    assert (R2 : xrun prog name code a g a2 g2).
+    { eapply xrun_trans; [exact R1|].
+      eapply (xstep_next prog name code a1 g1 i2 _ (a_ip a1) (set_ops a1 [])); [reflexivity| |apply dec_store|].
+      - cbn [a1 set_ip a_ip]. rewrite Hip. exact Hi2.
+      - unfold exec_d. cbn [a1 set_ip set_ops a_ops]. unfold store_var. fold g1t. change (frames g1t) with (frames g). rewrite Hfr.
+        cbn [find_in_function vars lab special]. rewrite (assoc_dscope_none f P 0 Hfn).
+        unfold bind_local. change (frames g1t) with (frames g). rewrite Hfr. cbn [cell_new with_frames cells frames out trace lab vars].
+        rewrite assoc_set_absent by (apply assoc_dscope_none; exact Hfn). reflexivity. }
+    assert (Hinv2 : dinv (P ++ [(f, (ps, body))]) env1 s1 a2 g2).
+    { constructor; cbn [env1 s1 g2 a2 a1 locals captured store rout frames cells out set_ip set_ops a_ops a_ip a_cb a_ss].
+      - rewrite dscope_app, Hlen. reflexivity.
+      - exact Hcap.
+      - rewrite !app_length. cbn [length]. lia.
+      - intros i f0 ps0 body0 Hi. destruct (Nat.lt_ge_cases i (length P)) as [Hlt|Hge].
+        + rewrite nth_error_app1 in Hi by exact Hlt. rewrite nth_error_app1 by lia.
+          rewrite firstn_app. replace (i - length P) with 0 by lia. cbn [firstn]. rewrite app_nil_r. exact (Hclo i f0 ps0 body0 Hi).
+        + rewrite nth_error_app2 in Hi by exact Hge. destruct (i - length P) as [|j] eqn:Ej; [|destruct j; discriminate].
+          cbn in Hi. inversion Hi; subst f0 ps0 body0. rewrite nth_error_app2 by lia.
+          replace (i - length (store s)) with 0 by lia. assert (i = length P) by lia. subst i.
+          rewrite firstn_app, Nat.sub_diag, firstn_all. cbn [firstn nth_error fv app]. rewrite app_nil_r. reflexivity.
+      - exact Hro.
+      - rewrite dscope_app. cbn [fst Nat.add]. rewrite Hce, dcells_length. reflexivity.
+      - rewrite dcells_app, Hce. reflexivity.
+      - exact Hou.
+      - reflexivity.
+      - rewrite Hip, app_length. cbn [length]. lia.
+      - exact Hcb.
+      - exact Hss. }
+    destruct (IH (P ++ [(f, (ps, body))]) env1 s1 a2 g2 main (pred fuel)) as (env' & s' & a' & g' & R' & Hinv' & Ha' & Hexb).
+    + now rewrite <- app_assoc.
+    + rewrite app_length. cbn [length]. replace (2 * (length P + 1)) with (S (S (2 * length P))) by lia.
+      replace (length P + 1) with (S (length P)) by lia. exact Hc.
+    + exact Hinv2.
+    + exists env', s', a', g'. split; [eapply xrun_trans; [exact R2|exact R']|]. split; [now rewrite <- app_assoc in Hinv'|].
+      split; [destruct Ha' as (A1 & A2 & A3); repeat split; assumption|].
+      cbn [map app]. destruct fuel as [|[|[|fu]]]; [left; reflexivity|left; reflexivity|left; reflexivity|].
+      rewrite exec_block_cons, Hex. exact Hexb.
+Qed.
+End Defs.
+
+(* ================================================================ the function table of a module *)
+Fixpoint findex (f : str) (FT : ftab) : nat :=
+  match FT with [] => 0 | d :: t => if str_eqb (fst d) f then 0 else S (findex f t) end.
+Fixpoint dfc (pre : ftab) (FT : ftab) : list (str * (N * N * list scope * option (list (str * N)))) :=
+  match FT with
+  | [] => []
+  | d :: t => (fst d, (N.of_nat (length pre), N.of_nat (length pre), [dscope 0 pre], None)) :: dfc (pre ++ [d]) t
+  end.
+
+Lemma dfc_assoc : forall FT pre f x, assoc f (dfc pre FT) = Some x ->
+  exists ps body, nth_error FT (findex f FT) = Some (f, (ps, body)) /\ assoc f FT = Some (ps, body) /\
+    x = (N.of_nat (length pre + findex f FT), N.of_nat (length pre + findex f FT),
+         [dscope 0 (pre ++ firstn (findex f FT) FT)], None).
+Proof.
+  induction FT as [|[f0 [ps0 body0]] t IH]; intros pre f x H; [discriminate|].
+  cbn [dfc assoc fst findex] in *. destruct (str_eqb f0 f) eqn:E.
+  - apply str_eqb_iff in E. subst f0. injection H as <-. exists ps0, body0. cbn [nth_error firstn].
+    rewrite Nat.add_0_r, app_nil_r. repeat split.
+  - destruct (IH _ _ _ H) as (ps & body & H1 & H2 & H3). exists ps, body. cbn [nth_error firstn]. split; [exact H1|]. split; [exact H2|].
+    rewrite H3. rewrite app_length, <- app_assoc. cbn [length app]. replace (length pre + 1 + findex f t) with (length pre + S (findex f t)) by lia.
+    reflexivity.
+Qed.
+Lemma dfc_none : forall FT pre f, In f (fnames FT) <-> assoc f (dfc pre FT) <> None.
+Proof.
+  induction FT as [|[f0 r] t IH]; intros pre f; cbn [fnames map fst In dfc assoc].
+  - split; [intros []|congruence].
+  - destruct (str_eqb f0 f) eqn:E.
+    + apply str_eqb_iff in E. subst f0. split; [congruence|now left].
+    + split.
+      * intros [->|H]; [rewrite str_eqb_refl in E; discriminate|]. now apply IH.
+      * intros H. right. exact (proj2 (IH _ _) H).
+Qed.
+Lemma dscope_keys : forall FT k, map fst (dscope k FT) = fnames FT.
+Proof. induction FT as [|[f r] t IH]; intros k; cbn [dscope map fst fnames]; [reflexivity|]. f_equal. apply IH. Qed.
+Lemma assoc_dscope_in : forall FT k x, assoc x (dscope k FT) <> None <-> In x (fnames FT).
+Proof.
+  induction FT as [|[f r] t IH]; intros k x; cbn [dscope assoc fnames map fst In].
+  - split; [congruence|intros []].
+  - destruct (str_eqb f x) eqn:E.
+    + apply str_eqb_iff in E. subst x. split; [now left|congruence].
+    + split.
+      * intros H. right. exact (proj1 (IH _ _) H).
+      * intros [->|H]; [rewrite str_eqb_refl in E; discriminate|]. now apply IH.
+Qed.
+Lemma dcells_nth : forall path FT k i, i < length FT -> nth_error (dcells path k FT) i = Some (VFun (fn_name path (k + i)) None).
+Proof.
+  intros path. induction FT as [|d t IH]; intros k i Hi; cbn [length] in Hi; [lia|]. destruct i as [|i]; cbn [dcells nth_error].
+  - now rewrite Nat.add_0_r.
+  - rewrite IH by lia. do 3 f_equal. lia.
+Qed.
+Lemma findex_nth : forall FT f d, nth_error FT (findex f FT) = Some d -> findex f FT < length FT.
+Proof. intros FT f d H. apply nth_error_Some. congruence. Qed.
+
+(* names of compiled functions are pairwise different, and different from the module's *)
+Lemma fn_name_inj : forall path a b, small a -> small b -> fn_name path a = fn_name path b -> a = b.
+Proof.
+  intros path a b Ha Hb E. unfold fn_name in E. apply app_inv_head in E. apply app_inv_head in E. now apply sN_inj.
+Qed.
+Lemma fn_name_module : forall path k, fn_name path k <> s_module_fn path.
+Proof.
+  intros path k E. unfold fn_name, s_module_fn in E. apply app_inv_head in E. discriminate.
+Qed.
+Lemma assoc_dfbuf : forall path FT k i f ps body rest, small (k + length FT) ->
+  nth_error FT i = Some (f, (ps, body)) -> assoc (fn_name path (k + i)) (dfbuf path k FT ++ rest) = Some (fcode_of ps body).
+Proof.
+  intros path. induction FT as [|[f0 [ps0 body0]] t IH]; intros k i f ps body rest Hs Hi; [destruct i; discriminate|].
+  cbn [length] in Hs. destruct i as [|i]; cbn [nth_error] in Hi; cbn [dfbuf app assoc].
+  - inversion Hi; subst. now rewrite Nat.add_0_r, str_eqb_refl.
+  - assert (Hl : i < length t) by (apply nth_error_Some; congruence).
+    rewrite str_eqb_neq.
+    + replace (k + S i) with (S k + i) by lia. apply (IH (S k) i f ps body rest); [|exact Hi].
+      eapply small_le; [|exact Hs]. lia.
+    + intros E. apply fn_name_inj in E; [lia| |]; eapply small_le; try exact Hs; lia.
+Qed.
+Lemma assoc_dfbuf_module : forall path FT k mc, assoc (s_module_fn path) (dfbuf path k FT ++ [(s_module_fn path, mc)]) = Some mc.
+Proof.
+  intros path. induction FT as [|[f0 [ps0 body0]] t IH]; intros k mc; cbn [dfbuf app assoc].
+  - now rewrite str_eqb_refl.
+  - rewrite str_eqb_neq by (intros E; exact (fn_name_module _ _ E)). apply IH.
+Qed.
+
+(* ================================================================ after the definitions: the statement relation holds *)
+Definition mfloc (path : str) (FT : ftab) (f : str) : str := fn_name path (findex f FT).
+
+Lemma no_pairs_defs : forall FT name c c',
+  ~ StmtRel.pairs (fnames FT) [dscope 0 FT] [{| lab := LFun name; vars := dscope 0 FT |}] c c'.
+Proof.
+  intros FT name c c' H. cbn [StmtRel.pairs] in H. destruct H as [(x & Hx & E & _)|[]].
+  cbn [lookup_scopes] in E. rewrite assoc_dscope_none in E by exact (uname_nfun x Hx). discriminate.
+Qed.
+
+Lemma Rst_defs : forall path name FT env s a g,
+  NoDup (fnames FT) -> dinv path name FT env s a g ->
+  Rst [] FT (fnames FT) (dfc [] FT) (mfloc path FT) None no_pins env s a g /\ bound_in FT (fnames FT) [] env.
+Proof.
+  intros path name FT env s a g Hnd [Hloc Hcap Hlen Hclo Hro Hfr Hce Hou Hops Hip Hcb Hss].
+  split; [split; [|split; [exact Hops|rewrite Hloc, Hss; cbn; lia]]|].
+  - constructor; rewrite ?Hloc, ?Hfr, ?Hcap, ?Hce.
+    + cbn [StmtRel.Rfr]. split; [|reflexivity]. intros x Hx. cbn [lookup_scopes find_in_function vars lab special].
+      rewrite assoc_dscope_none by exact (uname_nfun x Hx). exact Logic.I.
+    + intros c1 c1' c2 c2' H1. exfalso. exact (no_pairs_defs _ _ _ _ H1).
+    + now rewrite Hou, Hro.
+    + reflexivity.
+    + intros x Hx. right. cbn [lookup_scopes] in Hx. apply (assoc_dscope_in FT 0 x).
+      destruct (assoc x (dscope 0 FT)); [congruence|exact Hx].
+    + cbn [NS lookup_scopes]. split; [intros; reflexivity|exact Logic.I].
+    + split; intros ? ? [].
+    + constructor; [|constructor]. cbn [vars]. unfold keys_nd. now rewrite dscope_keys.
+    + split.
+      * intros cy w (f & c0 & ce & cbf & E & ->). destruct (dfc_assoc _ _ _ _ E) as (ps & body & H1 & H2 & H3).
+        inversion H3; subst. cbn [length Nat.add]. rewrite Nat2N.id. split; [|intros c; apply no_pairs_defs].
+        rewrite dcells_nth by (eapply findex_nth; exact H1). reflexivity.
+      * intros c0 v (f & c0' & ce & cbf & ps & body & E & E2 & ->). destruct (dfc_assoc _ _ _ _ E) as (ps' & body' & H1 & H2 & H3).
+        rewrite H2 in E2. inversion E2; subst ps' body'. inversion H3; subst. cbn [length Nat.add app]. rewrite Nat2N.id.
+        split; [|intros c; apply no_pairs_defs]. exact (Hclo _ _ _ _ H1).
+    + intros f c0 c0' ce cbf E k Hk. cbn [length] in Hk. assert (k = 0) by lia. subst k. cbn [skipn app].
+      destruct (dfc_assoc _ _ _ _ E) as (ps & body & H1 & H2 & H3). inversion H3; subst. cbn [length Nat.add].
+      pose proof (assoc_dscope_nth FT 0 _ _ Hnd H1) as Ha. cbn [fst Nat.add] in Ha.
+      unfold lookup_fs. cbn [lookup_scopes find_in_function vars]. rewrite Ha. split; reflexivity.
+  - split; [|intros x []]. intros x. rewrite Hloc. cbn [lookup_scopes]. split.
+    + intros H. right. apply (assoc_dscope_in FT 0 x). destruct (assoc x (dscope 0 FT)); [congruence|exact H].
+    + intros [[]|H]. apply (assoc_dscope_in FT 0 x) in H. destruct (assoc x (dscope 0 FT)); [congruence|exact H].
+Qed.
+
+Lemma strip_ftail : forall cb, strip (ftail cb) = [mkI OP_VOID []; mkI OP_RET []] \/ (strip (ftail cb) = [] /\ ends_in_ret cb = true).
+Proof. intros cb. unfold ftail. destruct (ends_in_ret cb); [right; split; reflexivity|left; reflexivity]. Qed.
+
+Lemma call_ok_defs : forall path FT prog fuel, Forall fn_ok FT ->
+  (forall i f ps body, nth_error FT i = Some (f, (ps, body)) -> assoc (fn_name path i) prog = Some (fcode_of ps body)) ->
+  call_ok FT (dfc [] FT) (mfloc path FT) prog fuel.
+Proof.
+  intros path FT prog fuel HF Hprog f ps body c0 c0' cenv cbf vs s g1 Ef Ec Hvs Hlen Ho Hnd _.
+  destruct (dfc_assoc _ _ _ _ Ec) as (ps' & body' & H1 & H2 & H3). rewrite H2 in Ef. inversion Ef; subst ps' body'.
+  inversion H3; subst. clear H3.
+  pose proof (proj1 (Forall_forall _ _) HF _ (nth_error_In _ _ H1)) as (Hf & Hndp & Hsrc & Hok & Hfv & Hsm).
+  pose proof (fun_sim prog (mfloc path FT f) ps body (strip (ftail (bitems 1 0 None body)))) as HS. cbv zeta in HS.
+  fold (fcode_of ps body) in HS. specialize (HS (Hprog _ _ _ _ H1)).
+  assert (Ht : strip (ftail (bitems 1 0 None body)) = [mkI OP_VOID []; mkI OP_RET []] \/
+               (strip (ftail (bitems 1 0 None body)) = [] /\ ends_ret body = true)).
+  { destruct (strip_ftail (bitems 1 0 None body)) as [H|[H H']]; [now left|right]. split; [exact H|].
+    exact (ends_in_ret_body [] (rev ps) 1 0 body Hok H'). }
+  specialize (HS Ht Hndp Hsrc Hok Hsm fuel vs s g1 [dscope 0 ([] ++ firstn (findex f FT) FT)] Hvs Hlen Ho Hnd).
+  unfold call_res in HS. exact HS.
+Qed.
+
+Section ModuleFun.
+Variable path : str.
+
+Definition fmodule (FT : ftab) (main : list stmt) : source := map def_stmt FT ++ main.
+Definition fmodule_code (FT : ftab) (main : list stmt) : list instr :=
+  dcode path 0 FT ++ strip (bitems 0 0 None main) ++ [ret_mod].
+
+Lemma cprogram_fmodule : forall FT main, Forall fn_ok FT -> ok_block FT false [] main = true ->
+  cprogram path (fmodule FT main) = dfbuf path 0 FT ++ [(s_module_fn path, fmodule_code FT main)].
+Proof.
+  intros FT main HF Hok. unfold cprogram, fmodule. rewrite (cblock0_defs path FT main {| fid := 0; lreg := 0; fbuf := [] |} HF eq_refl). cbn [fid fbuf lreg app Nat.add].
+  rewrite cblock0_eq, (cblockT_ok path 0 main FT false [] None _ Hok). cbn [lreg fbuf].
+  rewrite strip_app, strip_map_CI. unfold fmodule_code. now rewrite <- app_assoc.
+Qed.
+
+(* C01 for modules that define closure-free functions first and then call them (in expression position) from the
+   module's own code, at any nesting depth *)
+Theorem module_fun_correct : forall FT main,
+  Forall fn_ok FT -> NoDup (fnames FT) -> ok_block FT false [] main = true ->
+  small (2 * length (fmodule_code FT main) + 8) ->
+  let p := fmodule FT main in
+  forall fuel, snd (run fuel p) <> ROFuel -> no_claim (snd (run fuel p)) \/
+  exists fuel', fst (fst (execute fuel' (cprogram path p) (s_module_fn path))) = fst (run fuel p) /\
+                vm_outcome_ok (snd (run fuel p)) (snd (fst (execute fuel' (cprogram path p) (s_module_fn path)))).
+Proof.
+  intros FT main HF Hnd Hok Hsm p fuel Hnf.
+  set (name := s_module_fn path).
+  set (P := cprogram path p).
+  set (mc := fmodule_code FT main).
+  assert (EP : P = dfbuf path 0 FT ++ [(name, mc)]) by (apply cprogram_fmodule; assumption).
+  assert (Ecode : assoc name P = Some mc) by (rewrite EP; apply assoc_dfbuf_module).
+  assert (HlenFT : small (length FT)).
+  { eapply small_le; [|exact Hsm]. unfold fmodule_code. rewrite app_length, dcode_length. lia. }
+  assert (Hprog : forall i f ps body, nth_error FT i = Some (f, (ps, body)) -> assoc (fn_name path i) P = Some (fcode_of ps body)).
+  { intros i f ps body Hi. rewrite EP. exact (assoc_dfbuf path FT 0 i f ps body _ HlenFT Hi). }
+  set (env0 := {| locals := [[]]; captured := []; cur := None |}).
+  set (s0 := {| store := []; rout := [] |}).
+  set (a0 := act0 name [] None).
+  set (g00 := push_frame g0 (LFun name)).
+  assert (Hd0 : dinv path name [] env0 s0 a0 g00).
+  { constructor; try reflexivity. intros i f ps body Hi. destruct i; discriminate. }
+  destruct (defs_run path P name mc FT [] env0 s0 a0 g00 main fuel) as (env1 & s1 & a1 & g1 & R1 & Hd1 & Ha1 & Hex).
+  { exact Hnd. }
+  { unfold mc, fmodule_code. cbn [length Nat.mul]. exact (code_at_embed [] (dcode path 0 FT) _). }
+  { exact Hd0. }
+  cbn [app] in Hd1.
+  unfold run in *. fold env0 s0 in Hnf |- *. change (map def_stmt FT ++ main) with p in Hex.
+  destruct Hex as [Hex|[fuel0 Hex]]; [rewrite Hex in Hnf; cbn in Hnf; congruence|].
+  rewrite Hex in *. clear Hex.
+  destruct (Rst_defs path name FT env1 s1 a1 g1 Hnd Hd1) as [HR HB].
+  assert (Hf0 : forall f, In f (fnames FT) -> uname0 f).
+  { intros f Hin. unfold fnames in Hin. apply in_map_iff in Hin as ([f' [ps body]] & <- & Hin).
+    exact (src_nameb_ok _ (proj1 (proj1 (Forall_forall _ _) HF _ Hin))). }
+  pose proof (cblock_correct [] FT (fnames FT) (dfc [] FT) (mfloc path FT) None (fun f H => H) Hf0 (dfc_none FT [])
+                path main [] Hok 0 {| fid := 0; lreg := 0; fbuf := [] |} no_pins P name (dcode path 0 FT) [ret_mod]
+                a1 g1 env1 s1 fuel0) as H.
+  cbv zeta in H. rewrite (cblockT_ok path 0 main FT false [] None _ Hok) in H. cbn [fst lreg] in H.
+  fold (fmodule_code FT main) in H. fold mc in H.
+  specialize (H ltac:(left; discriminate) Hsm ltac:(rewrite (di_ip _ _ _ _ _ _ _ Hd1), dcode_length; reflexivity)
+                (di_cb _ _ _ _ _ _ _ Hd1) HR HB
+                ltac:(intros fuel' _; apply call_ok_defs; assumption)).
+  set (fin := length (dcode path 0 FT) + length (strip (bitems 0 0 None main))) in *.
+  destruct (exec_block fuel0 env1 main s1) as [sig env' s'|f s'|]; [| |cbn in Hnf; congruence].
+  - destruct sig as [| | |[v|]]; try contradiction.
+    2:{ destruct H as (env'' & a' & g' & Hn & Hi & Hops & Hfo & HG & Ha).
+      pose proof (xrun_trans _ _ _ _ _ _ _ _ _ R1 Hn) as Hn0.
+      pose proof (Rg_drop _ _ _ _ _ _ _ _ _ HG) as Hdrop.
+      destruct (xrun_loop _ _ _ _ _ _ _ Hn0) as (N & n & Hloop).
+      set (f0 := Nat.max N (n + 1)).
+      set (gf := with_frames (add_trace g' (name, N.of_nat (a_ip a'), op (mkI OP_RET []), N.of_nat (length (frames g')),
+                                            N.of_nat (length [inj v]))) []).
+      assert (Hrun : run_fn (S f0) P name [] None g0 = RDone (Some (inj v)) gf).
+      { unfold run_fn. rewrite run_fn_gen_S, Ecode.
+        change (run_fn_gen (fun _ _ _ => true) f0 P) with (run_fn f0 P).
+        change (fun (_ : str) (_ : nat) (_ : bool) => true) with rcT.
+        replace f0 with (n + (f0 - n)) at 2 by (unfold f0; lia).
+        fold a0 g00. rewrite (Hloop f0 ltac:(unfold f0; lia)).
+        destruct (f0 - n) as [|k] eqn:Ek; [unfold f0 in Ek; lia|].
+        cbn [loop]. rewrite Hi. unfold Model.exec. change (decode (mkI OP_RET [])) with (DOk DRet). cbn [exec_d].
+        rewrite Hops. cbn [add_trace frames]. rewrite Hdrop. reflexivity. }
+      right. exists (S f0). unfold execute. fold P name. rewrite Hrun. cbn [fst snd gf with_frames frames out add_trace].
+      split; [exact (Rg_out _ _ _ _ _ _ _ _ _ HG)|exact Logic.I]. }
+    destruct H as (a' & g' & Hn & Hip & (HG & Hops & Hss) & Ha & Hd).
+    pose proof (xrun_trans _ _ _ _ _ _ _ _ _ R1 Hn) as Hn0.
+    destruct Hd as (Hd & HB' & _).
+    assert (Hl1 : locals env1 = [dscope 0 FT]) by exact (di_loc _ _ _ _ _ _ _ Hd1).
+    pose proof (same_tl_length env1 env' ltac:(rewrite Hl1; discriminate) Hd) as Hl. rewrite Hl1 in Hl. cbn [length] in Hl.
+    pose proof (Rg_base _ _ _ _ _ _ _ _ _ HG) as Hbase. rewrite Hl in Hbase.
+    pose proof (Rg_fr _ _ _ _ _ _ _ _ _ HG) as Hfr.
+    destruct (locals env') as [|sc [|sc' l']]; cbn [length] in Hl; try discriminate.
+    destruct g' as [cs' fs' o' tr']. cbn [frames out] in *.
+    destruct fs' as [|f fs]; [cbn in Hfr; contradiction|]. cbn [skipn] in Hbase. subst fs.
+    cbn [StmtRel.Rfr] in Hfr. destruct Hfr as [_ Hsp].
+    destruct (xrun_loop _ _ _ _ _ _ _ Hn0) as (N & n & Hloop).
+    set (f0 := Nat.max N (n + 1)).
+    assert (Hrun : exists tr'', run_fn (S f0) P name [] None g0
+                   = RDone (Some VModule) {| cells := cs'; frames := []; out := o'; trace := tr'' |}).
+    { eexists. unfold run_fn. rewrite run_fn_gen_S, Ecode.
+      change (run_fn_gen (fun _ _ _ => true) f0 P) with (run_fn f0 P).
+      change (fun (_ : str) (_ : nat) (_ : bool) => true) with rcT.
+      replace f0 with (n + (f0 - n)) at 2 by (unfold f0; lia).
+      fold a0 g00. rewrite (Hloop f0 ltac:(unfold f0; lia)).
+      destruct (f0 - n) as [|k] eqn:Ek; [unfold f0 in Ek; lia|].
+      cbn [loop]. rewrite Hip. unfold mc, fmodule_code at 1. rewrite app_assoc, nth_error_app2 by (rewrite app_length; fold fin; lia).
+      rewrite app_length. fold fin. rewrite Nat.sub_diag.
+      cbn [nth_error]. unfold Model.exec. change (decode ret_mod) with (DOk DRetMod). cbn [exec_d].
+      rewrite Hops. cbn [add_trace frames with_frames drop_to_function cells out trace]. rewrite Hsp. reflexivity. }
+    destruct Hrun as [tr'' Hrun]. right.
+    exists (S f0). unfold execute. fold P name. rewrite Hrun. cbn [fst snd frames out].
+    split; [exact (Rg_out _ _ _ _ _ _ _ _ _ HG)|exact Logic.I].
+  - apply fail_post_inv in H. destruct H as [[->| ->]|H]; [left; left; reflexivity|left; right; reflexivity|right].
+    destruct H as (e & g' & Hn & Hr & Ho).
+    pose proof (xrun_fail _ _ _ _ _ _ _ _ _ R1 Hn) as Hn0.
+    destruct (xfail_loop _ _ _ _ _ _ _ Hn0) as (N & n & Hloop).
+    assert (Hrun : run_fn (S (Nat.max N n)) P name [] None g0 = RFail e g').
+    { unfold run_fn. rewrite run_fn_gen_S, Ecode.
+      change (run_fn_gen (fun _ _ _ => true) (Nat.max N n) P) with (run_fn (Nat.max N n) P).
+      change (fun (_ : str) (_ : nat) (_ : bool) => true) with rcT.
+      replace (Nat.max N n) with (n + (Nat.max N n - n)) at 2 by lia.
+      apply (Hloop (Nat.max N n)). lia. }
+    exists (S (Nat.max N n)). unfold execute. fold P name. rewrite Hrun.
+    cbn [fst snd]. split; [exact Ho|exact Hr].
+Qed.
+End ModuleFun.
